@@ -1212,6 +1212,13 @@ def reads(e):
                     n.func.attr[4:] not in REBOUND[0] and is_const_attr(n.func.value):
                 skip.add(id(n.func))
                 continue        # getter of a constructor-only field of a constructor-only attribute: always the same object
+            if isinstance(n.func, ast.Attribute) and n.func.attr in ("get_depth", "get_node_list", "get_root", "get_layer_node_list") and \
+                    isinstance(n.func.value, ast.Attribute) and isinstance(n.func.value.value, ast.Name) and n.func.value.value.id == "self" and \
+                    n.func.value.attr == "partition" and not n.keywords and len(n.args) <= 1:
+                # the partition's own state (depth, layer table) changes only when the tree grows (C03's who-may-write rule)
+                out.add("<heap:TREE>")
+                skip.add(id(n.func))
+                continue
             # the result of a getter depends on the object's state: represent by a pseudo-location
             out.add("<state>")
     return out
@@ -3485,6 +3492,106 @@ def rematerialise_same_rhs(fn, known):
     return k
 
 
+def forward_copy_temps(fn):
+    """An inliner temporary T all of whose definitions are `T = v` for one and the same variable v, with v not rebound on any path
+    from a definition to a use of T: T is v - the uses read v and the copies are dropped."""
+    from . import cfg as C
+    from . import effects as E
+    k = 0
+    again = True
+    while again:
+        again = False
+        cands = {}
+        for n in ast.walk(fn):
+            if isinstance(n, ast.Assign) and len(n.targets) == 1 and isinstance(n.targets[0], ast.Name) and n.targets[0].id.startswith("__") and \
+                    isinstance(n.value, ast.Name):
+                cands.setdefault(n.targets[0].id, []).append(n)
+        g = None
+        for T, defs in sorted(cands.items()):
+            stores = [n for n in ast.walk(fn) if isinstance(n, ast.Name) and n.id == T and isinstance(n.ctx, (ast.Store, ast.Del))]
+            if len(stores) != len(defs) or len({d.value.id for d in defs}) != 1:
+                continue
+            v = defs[0].value.id
+            if v == T:
+                continue
+            loads = [n for n in ast.walk(fn) if isinstance(n, ast.Name) and n.id == T and isinstance(n.ctx, ast.Load)]
+            if not loads:
+                continue
+            if g is None:
+                try:
+                    g = C.CFG(fn)
+                except Exception:
+                    return k
+            try:
+                dn = [g.node_of(d) for d in defs]
+                un = [g.node_of(u) for u in loads]
+            except Exception:
+                continue
+            writers = [n for n in g.nodes if n.ast is not None and n not in dn and v in E.stored_locs(n)]
+            ok = True
+            for u in un:
+                if g.paths_avoiding(g.entry, u, dn):
+                    ok = False
+                for w in writers:
+                    if w is not u and g.paths_avoiding(w, u, dn):
+                        ok = False
+            if not ok:
+                continue
+            for u in loads:
+                u.id = v
+            for blk in _blocks(fn):
+                for d in defs:
+                    if d in blk:
+                        blk.remove(d)
+                        if not blk:
+                            blk.append(ast.copy_location(ast.Pass(), d))
+            k += 1
+            again = True
+            break
+    return k
+
+
+def coalesce_inout(fn):
+    """__p = x; ...(x not mentioned)...; x = __p      the inlined helper worked on a copy of the caller's variable and handed it
+    back: the region works on x itself."""
+    k = 0
+    again = True
+    while again:
+        again = False
+        for blk in _blocks(fn):
+            for i, a in enumerate(blk):
+                if not (isinstance(a, ast.Assign) and len(a.targets) == 1 and isinstance(a.targets[0], ast.Name) and a.targets[0].id.startswith("__") and
+                        isinstance(a.value, ast.Name) and not a.value.id.startswith("__")):
+                    continue
+                P, x = a.targets[0].id, a.value.id
+                j = None
+                for q in range(i + 1, len(blk)):
+                    b = blk[q]
+                    if isinstance(b, ast.Assign) and len(b.targets) == 1 and isinstance(b.targets[0], ast.Name) and b.targets[0].id == x and \
+                            isinstance(b.value, ast.Name) and b.value.id == P:
+                        j = q
+                        break
+                    if _mentions_name(b, x):
+                        break
+                if j is None:
+                    continue
+                inside = {id(n) for t in blk[i:j + 1] for n in ast.walk(t)}
+                if any(isinstance(n, ast.Name) and n.id == P and id(n) not in inside for n in ast.walk(fn)):
+                    continue
+                rn = _Rename({P: x}, {})
+                for q in range(i + 1, j):
+                    blk[q] = rn.visit(blk[q])
+                del blk[j]
+                del blk[i]
+                ast.fix_missing_locations(fn)
+                k += 1
+                again = True
+                break
+            if again:
+                break
+    return k
+
+
 def expand_dict_splats(fn):
     """f(**d) where d is a local bound exactly once to a dict display with constant string keys, never mutated or passed
     elsewhere, and whose value expressions are not affected between the display and the call: the keywords are written out."""
@@ -4039,6 +4146,8 @@ def normalize_tree(file, tree, vocab):
             t0 += rename_result_temps(f)
             t0 += rename_multi_def_temps(f)
             t0 += eliminate_result_copies(f)
+            t0 += forward_copy_temps(f)
+            t0 += coalesce_inout(f)
             t0 += thread_bool_flags(f)
             if t0:
                 log.append("%s.%s: %d parallel assignment(s) split / result temporaries renamed" % (cname, f.name, t0))
@@ -4067,6 +4176,9 @@ def normalize_tree(file, tree, vocab):
                 k = substitute_new_temps(f, known | set(a.arg for a in f.args.args))
                 if k:
                     log.append("%s.%s: %d new temporar%s substituted" % (cname, f.name, k, "y" if k == 1 else "ies"))
+            w5 = while_true_breaks(f) + counter_whiles(f)      # loop forms again: a temporary may have stood in front of the exit test
+            if w5:
+                log.append("%s.%s: %d more loop(s) brought to while-cond / for-range form" % (cname, f.name, w5))
             cs = cse_const_aliases(f)
             if cs:
                 log.append("%s.%s: %d spelling(s) of a constant designator replaced by its local alias" % (cname, f.name, cs))
